@@ -4,6 +4,7 @@ import (
 	"fmt"
 	"go/ast"
 	"go/constant"
+	"go/parser"
 	"go/token"
 	"go/types"
 	"strings"
@@ -78,7 +79,7 @@ func isCloseOfChan(n ast.Node) bool {
 func CheckC19(c *Ctx) {
 	run := c.Run
 	run.Technique = "typed-AST + go/cfg path lints on the three reader goroutines and the HTTP client code: bounds guard before indexing a decoded record, close-first defer, error branches leave the loop, must-pass-through of Body.Close on every path after a successful request, status check before decoding, file closed after the reader finished"
-	run.Explanation = "The behaviour of encoding/csv, encoding/json and net/http on arbitrary bytes is NOT decided. Decided are the structural conditions on this repository's own reader code: (a) every index into a decoded CSV record is dominated by a comparison against len(record) that leaves the row loop (a header-less file whose first row is shorter than the struct must not panic in a library goroutine); (b) every reader goroutine defers the close of its channel before anything can return; (c) every error branch inside a reader loop leaves the loop, so only the well-formed prefix is delivered; (d) ReadFromFile closes the file only after the reader goroutine finished; (e) in the Tiingo client a non-200 status returns an error before any decoding and, on every control-flow path after a successful request, the response body is closed (go/cfg may-analysis over each function and each goroutine body); (f) JSONToChan verifies the opening delimiter."
+	run.Explanation = "The behaviour of encoding/csv, encoding/json and net/http on arbitrary bytes is NOT decided. Decided are the structural conditions on this repository's own reader code: (0) the reader goroutines and the package functions they call contain no panic source of their own - no type assertion without the ok result, no explicit panic (detector exercised on a built-in example on every run); (a) every index into a decoded CSV record is dominated by a comparison against len(record) that leaves the row loop (a header-less file whose first row is shorter than the struct must not panic in a library goroutine); (b) every reader goroutine defers the close of its channel before anything can return; (c) every error branch inside a reader loop leaves the loop, so only the well-formed prefix is delivered; (d) ReadFromFile closes the file only after the reader goroutine finished; (e) in the Tiingo client a non-200 status returns an error before any decoding and, on every control-flow path after a successful request, the response body is closed (go/cfg may-analysis over each function and each goroutine body); (f) JSONToChan verifies the opening delimiter."
 	run.Trusted = []string{"go/types", "go/cfg control-flow graphs", "encoding/csv FieldsPerRecord check (relied upon only for rows after the first)"}
 	hp := c.P.Pkg("helper")
 	ap := c.P.Pkg("asset")
@@ -141,6 +142,11 @@ func CheckC19(c *Ctx) {
 		run.Count("record_index_sites", n)
 		run.Floor("record_index_sites", 1)
 	}
+	if ok := panicSourcesSelfTest(); !ok {
+		run.Break("the panic-source detector no longer finds its built-in example")
+	} else {
+		c.ok()
+	}
 	// (b),(c) reader goroutines
 	readers := []struct{ rel, typ, name string }{
 		{"helper", "Csv", "ReadFromReader"},
@@ -161,6 +167,31 @@ func CheckC19(c *Ctx) {
 		}
 		run.Count("reader_goroutines", 1)
 		fl := lits[0]
+		// no panic source of its own on the path of external data: a panic in the reader goroutine
+		// cannot be recovered by the caller and ends the process
+		seenFn := map[*types.Func]bool{}
+		var scanPanics func(body ast.Node, where string, depth int)
+		scanPanics = func(body ast.Node, where string, depth int) {
+			for _, ps := range panicSources(body) {
+				c.violate("reader/panic-source", site, ps.what, ps.pos, "in "+where+": "+ps.why+"; malformed input reaches this code on a goroutine of the library, where a panic ends the whole process")
+			}
+			if depth >= 2 {
+				return
+			}
+			ast.Inspect(body, func(n ast.Node) bool {
+				if call, ok := n.(*ast.CallExpr); ok {
+					if fn := callee(info, call); fn != nil && !seenFn[fn.Origin()] {
+						if d := c.P.Decls[fn.Origin()]; d != nil && d.Decl.Body != nil && d.Pkg == fi.Pkg {
+							seenFn[fn.Origin()] = true
+							scanPanics(d.Decl.Body, load.FuncName(d.Fn), depth+1)
+						}
+					}
+				}
+				return true
+			})
+		}
+		scanPanics(fl.Body, "the reader goroutine", 0)
+		c.ok()
 		// close deferred before any return
 		bad := exitsWithout(fl.Body, nil, func(n ast.Node) bool { return isCloseOfChan(n) }, nil)
 		run.Oblige(len(bad) == 0)
@@ -1260,4 +1291,64 @@ func (c *Ctx) assetNameCodec() {
 	})
 	run.Count("listed_asset_names", nNames)
 	run.Floor("listed_asset_names", 1)
+}
+
+type panicSource struct {
+	pos       token.Pos
+	what, why string
+}
+
+// panicSources: unchecked type assertions (outside type switches and the two-value form) and
+// explicit panic calls in a body.
+func panicSources(body ast.Node) []panicSource {
+	var out []panicSource
+	checked := map[*ast.TypeAssertExpr]bool{}
+	ast.Inspect(body, func(n ast.Node) bool {
+		switch x := n.(type) {
+		case *ast.AssignStmt:
+			if len(x.Lhs) == 2 && len(x.Rhs) == 1 {
+				if ta, ok := ast.Unparen(x.Rhs[0]).(*ast.TypeAssertExpr); ok {
+					checked[ta] = true
+				}
+			}
+		case *ast.ValueSpec:
+			if len(x.Names) == 2 && len(x.Values) == 1 {
+				if ta, ok := ast.Unparen(x.Values[0]).(*ast.TypeAssertExpr); ok {
+					checked[ta] = true
+				}
+			}
+		case *ast.TypeAssertExpr:
+			if x.Type == nil || checked[x] {
+				return true // x.(type) of a type switch, or v, ok := x.(T)
+			}
+			out = append(out, panicSource{x.Pos(), "assertion " + exprString(x), "the type assertion " + exprString(x) + " has no ok result and panics when the value has another dynamic type"})
+		case *ast.CallExpr:
+			if id, ok := x.Fun.(*ast.Ident); ok && id.Name == "panic" && id.Obj == nil {
+				out = append(out, panicSource{x.Pos(), "panic call", "an explicit panic"})
+			}
+		}
+		return true
+	})
+	return out
+}
+
+// panicSourcesSelfTest: the detector must find the two forms in a built-in example and accept the
+// checked forms (the rule's expected count on the library is zero).
+func panicSourcesSelfTest() bool {
+	src := `package p
+func f(t interface{}) {
+	a := t.(int)
+	b, ok := t.(string)
+	switch t.(type) {
+	case int:
+	}
+	panic("x")
+	_, _, _ = a, b, ok
+}`
+	f, err := parser.ParseFile(token.NewFileSet(), "x.go", src, parser.SkipObjectResolution)
+	if err != nil {
+		return false
+	}
+	ps := panicSources(f)
+	return len(ps) == 2 && strings.HasPrefix(ps[0].what, "assertion") && ps[1].what == "panic call"
 }
